@@ -582,9 +582,12 @@ func runConformance(l *Loaded, eo EntryOpts, rc RunConfig, lc LoadConfig, k int,
 		runs = e.RunConformance(k, seed+1)
 	}()
 	for i, run := range runs {
+		if os.Getenv("GOSX_CONF_VERBOSE") != "" {
+			fmt.Printf("[conformance %s run %d] %s | inputs %v | %s\n", eo.Name, i, run.Result, run.Inputs, strings.Join(run.Trace, " "))
+		}
 		if run.Result != "ok" {
 			bad++
-			msgs = append(msgs, fmt.Sprintf("conformance run %d of %s: engine outcome %s", i, eo.Name, run.Result))
+			msgs = append(msgs, fmt.Sprintf("conformance run %d of %s: engine outcome %s (inputs %v; trace %s)", i, eo.Name, run.Result, run.Inputs, strings.Join(run.Trace, " ")))
 			continue
 		}
 		dir := filepath.Join(outDir, eo.Property, fmt.Sprintf("conf-%s-%d", eo.Name, i))
